@@ -1,7 +1,7 @@
 (* Properties/C17.v — Ticks are few enough, nice, ascending, inside the domain; Nice only expands.
    ONLY statements; each is closed by [exact] of a lemma from Proofs/Ticks*.v. *)
 From Coq Require Import Sorted.
-From MM Require Import Base.Num Model.Ticks Proofs.Ticks Proofs.TicksLinear Proofs.TicksLog Check.C17 Proofs.TicksCheck.
+From MM Require Import Base.Num Model.Ticks Proofs.Ticks Proofs.TicksLinear Proofs.TicksNice Proofs.TicksLog Check.C17 Proofs.TicksCheck.
 Local Open Scope Z_scope.
 
 (* ================= FindLevel (ticks.go:56-101) ================= *)
@@ -125,6 +125,51 @@ Theorem C17_linear_nice_adds_less_than_one_spacing : forall base eb mn mx o gues
     (a == smn \/ exists k : Z, a = inject_Z k * sp) /\ (b == smx \/ exists k : Z, b = inject_Z k * sp).
 Proof. exact lin_nice_adds_less_than_one_spacing. Qed.
 Print Assumptions C17_linear_nice_adds_less_than_one_spacing.
+
+(* The rounded-out tick count Nice searches with is non-increasing in the level, so "the level
+   Nice picks" is the LOWEST level of the window whose rounded-out count is at most Max,
+   whatever guess the search starts from *)
+Theorem C17_linear_nice_count_nonincreasing : forall base eb, lin_ebase base = Some eb ->
+  forall mn mx lo hi, mn < mx -> nonincreasing (lin_count base eb mn mx true) lo hi.
+Proof. exact lin_count_out_nonincreasing. Qed.
+Print Assumptions C17_linear_nice_count_nonincreasing.
+
+(* NICE IS IDEMPOTENT: every domain (proper, reversed, degenerate), every base, every options
+   with Max * Base <= 10^9 (Base = 10 when the field is 0), every level window, whatever the
+   two starting guesses.  (Max >= 3 is not needed for this clause: when no level fits, the
+   domain is left as it is both times.) *)
+Theorem C17_linear_nice_idempotent : forall base eb, lin_ebase base = Some eb ->
+  forall mn mx o g g2 a b, (o_max o * eb <= 10 ^ 9)%Z ->
+  lin_nice base mn mx o g = NR_dom a b -> lin_nice base a b o g2 = NR_dom a b.
+Proof. exact lin_nice_idempotent. Qed.
+Print Assumptions C17_linear_nice_idempotent.
+
+(* AFTER NICE THE FIRST AND LAST MAJOR TICKS ARE THE NEW ENDS: whenever Nice found a level (it
+   always does for Max >= 3 unless the level limits forbid it), Ticks with the same options on
+   the niced domain [a, b] returns major ticks whose first is a and whose last is b - exactly
+   for an end that Nice moved; an end that Nice left alone because it was within the slack
+   1e-10 (Max-Min) below/above a tick (repair D10) differs from the tick by at most that slack *)
+Theorem C17_linear_nice_ends_are_first_last_major : forall base eb mn mx o g g3 l a b major minor,
+  lin_ebase base = Some eb -> mn < mx -> (o_max o * eb <= 10 ^ 9)%Z ->
+  find_level o (lin_count base eb mn mx true) g = FL_ok l ->
+  lin_nice base mn mx o g = NR_dom a b ->
+  lin_ticks base a b o g3 = TR_ticks major minor ->
+  exists t1 rest, major = t1 :: rest /\
+    0 <= t1 - a <= (mx - mn) * slack_factor /\ 0 <= b - last major t1 <= (mx - mn) * slack_factor /\
+    (a < mn -> t1 == a) /\ (mx < b -> last major t1 == b).
+Proof. exact lin_nice_ends_are_first_last_major. Qed.
+Print Assumptions C17_linear_nice_ends_are_first_last_major.
+
+(* non-vacuity of the three: [0.3, 2.7], Max 4: Nice -> [0, 3] at level 0, again [0, 3];
+   Ticks on [0, 3] = 0, 1, 2, 3 *)
+Example C17_linear_nice_example :
+  find_level (mkOpts 4 0 0) (lin_count 0 10 (3 # 10) (27 # 10) true) 5 = FL_ok 0%Z /\
+  match lin_nice 0 (3 # 10) (27 # 10) (mkOpts 4 0 0) 5 with
+  | NR_dom a b => lin_nice 0 a b (mkOpts 4 0 0) (-3) = NR_dom a b /\
+                  match lin_ticks 0 a b (mkOpts 4 0 0) 2 with
+                  | TR_ticks ma _ => map Qred ma = [0; 1; 2; 3] | _ => False end
+  | _ => False end.
+Proof. vm_compute. repeat split; reflexivity. Qed.
 
 (* non-vacuity: [0.3, 2.7] (exact rationals), Max = 4 -> major 1, 2 at level 0, minor every 0.5;
    Nice -> [0, 3]; a domain around 0 with Max = 2 has no fitting level: Nice leaves it (D10) *)
